@@ -139,6 +139,11 @@ Section Arr.
       Ok (mkArr l h w)
     end.
 
+  (* From<&[[T; N]; M]> : the nested array is rectangular by its type; it is given here as the
+     M x N tabulation of a function, `for row in values { inner.extend_from_slice(row) }` *)
+  Definition from_array (m n : nat) (f : nat -> nat -> T) : arr T :=
+    mkArr (concat (map (fun r => map (fun c => f r c) (seq 0 n)) (seq 0 m))) m n.
+
   Definition from_flat (data : list T) (default_val : T) (h w : nat) : res (arr T) :=
     let vec_len := length data in
     let arr_size := h * w in
@@ -332,6 +337,7 @@ Definition dec_Z (z : Z) : list N :=
 
 Inductive op :=
 | OFromNested (rows : list (list Z))               (* a = Arr2D::try_from(rows)?            *)
+| OFromArray (m n : nat) (f : nat -> nat -> Z)     (* a = Arr2D::from(&[[f r c; n]; m])     *)
 | OFromFlat (data : list Z) (d : Z) (h w : nat)    (* a = Arr2D::from_flat(data, d, h, w)?  *)
 | OFull (v : Z) (h w : nat)                        (* a = Arr2D::full(v, h, w)              *)
 | OIdentity (n : nat)                              (* a = Arr2D::identity(n)                *)
@@ -360,6 +366,7 @@ Definition step_c (a : arr Z) (o : op) : arr Z * res unit :=
   commit a
     match o with
     | OFromNested rows => from_nested rows
+    | OFromArray m n f => Ok (from_array m n f)
     | OFromFlat data d h w => from_flat data d h w
     | OFull v h w => Ok (full v h w)
     | OIdentity n => identity n
@@ -404,6 +411,7 @@ Definition step_s (g : grid) (o : op) : grid * res unit :=
         then Ok (mkGrid (length rows) (length r0) rows)
         else Err EInconsistentRowLengths
       end
+    | OFromArray m n f => Ok (mkGrid m n (gtab m n f))
     | OFromFlat data d h' w' =>
       if (h' * w' <? length data) || (h' * w' =? 0) then Err EInvalidShape
       else Ok (mkGrid h' w' (gtab h' w' (fun r c => nth (r * w' + c) data d)))
